@@ -3,47 +3,53 @@
   the stored entries alone; the composition refines `Spec.step`.
 -/
 import Fbr.Lemmas.PtRef
+import Fbr.Lemmas.PtEffectU
 
 namespace Fbr.PtRefs
 
 /-- `s, sp ⟶ s', sp'`: the server state and the client ledger move together.  The flag says
-    whether the root was (re-)imported or the tables cleared on the way (`init`, `destroy`). -/
-inductive Tr (e : Env) : Bool → St → Spec → St → Spec → Prop
+    whether the root was (re-)imported or the tables cleared on the way (`init`, `destroy`).
+    The parameter `nf` ("no file handles") restricts the derivation: when it is `true`, every host
+    answer a lookup was handed, and every imported root, carries no file handle
+    (`inode_file_handles` off); `nf = false` restricts nothing. -/
+inductive Tr (e : Env) (nf : Bool) : Bool → St → Spec → St → Spec → Prop
   | frame {s s' : St} {sp : Spec} (hd : s'.data = s.data) (hc : s'.clobbered = s.clobbered)
       (hl : s'.lookups = s.lookups) (hb : s'.byId = s.byId) (hy : s'.byHandle = s.byHandle)
-      (hn : s'.next = s.next) : Tr e false s sp s' sp
-  | lookup {s s' : St} {sp : Spec} {r : Except Errno Ino} (h : LkEff e s s' r) :
-      Tr e false s sp s' (sp.afterLookup r)
+      (hn : s'.next = s.next) (ha : AllocSame s s') : Tr e nf false s sp s' sp
+  | lookup {s s' : St} {sp : Spec} {r : Except Errno Ino} {a : HAns} (h : LkEff e s s' r)
+      (hu : LkU e s s' a r) (hf : nf = true → a.NoFh) :
+      Tr e nf false s sp s' (sp.afterLookup r)
   | forget {s : St} {sp : Spec} (i : Ino) (n : Nat) :
-      Tr e false s sp (forgetOne e s i n) (sp.forget i n)
-  | hnds {s : St} {sp : Spec} (h : List (Hnd × Ino)) : Tr e false s sp s { sp with hnds := h }
+      Tr e nf false s sp (forgetOne e s i n) (sp.forget i n)
+  | hnds {s : St} {sp : Spec} (h : List (Hnd × Ino)) : Tr e nf false s sp s { sp with hnds := h }
   | setRoot {s s' : St} {sp : Spec} {d : IData} (hd : s'.data = mput s.data ROOT_ID d)
       (hr : d.refs = 2) (hc : s'.clobbered = s.clobbered) (hl : s'.lookups = s.lookups)
       (hb : s'.byId = mput s.byId d.id ROOT_ID)
       (hy : s'.byHandle = (match d.fh with
         | some h => mput s.byHandle h ROOT_ID
         | none => s.byHandle))
-      (hn : s'.next = s.next) : Tr e true s sp s' sp
+      (hn : s'.next = s.next) (ha : AllocSame s s') (hf : nf = true → d.fh = none) : Tr e nf true s sp s' sp
   | clear {s s' : St} {sp : Spec} (hd : s'.data = []) (hc : s'.clobbered = s.clobbered)
       (hl : s'.lookups = s.lookups) (hb : s'.byId = []) (hy : s'.byHandle = [])
-      (hn : s'.next = s.next) : Tr e true s sp s' Spec.init
+      (hn : s'.next = s.next) (ha : AllocSame s s') : Tr e nf true s sp s' Spec.init
   | trans {b1 b2 : Bool} {a b c : St} {sa sb sc : Spec} :
-      Tr e b1 a sa b sb → Tr e b2 b sb c sc → Tr e (b1 || b2) a sa c sc
-  | relax {s s' : St} {sp sp' : Spec} : Tr e false s sp s' sp' → Tr e true s sp s' sp'
+      Tr e nf b1 a sa b sb → Tr e nf b2 b sb c sc → Tr e nf (b1 || b2) a sa c sc
+  | relax {s s' : St} {sp sp' : Spec} : Tr e nf false s sp s' sp' → Tr e nf true s sp s' sp'
 
-theorem Tr.of_tables {e : Env} {s s' : St} {sp : Spec} (h : s'.tables = s.tables) :
-    Tr e false s sp s' sp :=
+theorem Tr.of_tables {e : Env} {nf : Bool} {s s' : St} {sp : Spec} (h : s'.tables = s.tables) :
+    Tr e nf false s sp s' sp :=
   .frame (data_of_tables h) (clob_of_tables h) (lookups_of_tables h) (byId_of_tables h)
-    (byHandle_of_tables h) (next_of_tables h)
+    (byHandle_of_tables h) (next_of_tables h) (AllocSame.of_tables h)
 
-theorem Tr.rfl' {e : Env} (s : St) (sp : Spec) : Tr e false s sp s sp := .frame rfl rfl rfl rfl rfl rfl
+theorem Tr.rfl' {e : Env} {nf : Bool} (s : St) (sp : Spec) : Tr e nf false s sp s sp :=
+  .frame rfl rfl rfl rfl rfl rfl (AllocSame.refl s)
 
 /-- composition of two steps that do not clear the tables -/
-theorem Tr.trans' {e : Env} {a b c : St} {sa sb sc : Spec}
-    (h1 : Tr e false a sa b sb) (h2 : Tr e false b sb c sc) : Tr e false a sa c sc :=
+theorem Tr.trans' {e : Env} {nf : Bool} {a b c : St} {sa sb sc : Spec}
+    (h1 : Tr e nf false a sa b sb) (h2 : Tr e nf false b sb c sc) : Tr e nf false a sa c sc :=
   Tr.trans h1 h2
 
-theorem Tr.mono {e : Env} {b : Bool} {s s' : St} {sp sp' : Spec} (h : Tr e b s sp s' sp') :
+theorem Tr.mono {e : Env} {nf : Bool} {b : Bool} {s s' : St} {sp sp' : Spec} (h : Tr e nf b s sp s' sp') :
     Mono s s' := by
   induction h with
   | frame hd hc hl => exact ⟨fun x => by rw [← hc]; exact x, by omega⟩
@@ -57,7 +63,7 @@ theorem Tr.mono {e : Env} {b : Bool} {s s' : St} {sp sp' : Spec} (h : Tr e b s s
   | trans _ _ ih1 ih2 => exact ih1.trans ih2
   | relax _ ih => exact ih
 
-theorem Tr.good {e : Env} {b : Bool} {s s' : St} {sp sp' : Spec} (h : Tr e b s sp s' sp')
+theorem Tr.good {e : Env} {nf : Bool} {b : Bool} {s s' : St} {sp sp' : Spec} (h : Tr e nf b s sp s' sp')
     (g : Good s sp) (ok : OK s') : Good s' sp' := by
   induction h with
   | frame hd hc hl =>
@@ -97,10 +103,11 @@ theorem deliver_forget_cancel (sp : Spec) (i : Ino) : (sp.deliver i).forget i 1 
       · subst e; simp
       · simp [e]
 
-theorem Tr.lookup_undo {e : Env} {s s' : St} {sp : Spec} {ino : Ino} (h : LkEff e s s' (.ok ino)) :
-    Tr e false s sp (forgetOne e s' ino 1) sp := by
-  have h1 : Tr e false s sp s' (sp.deliver ino) := Tr.lookup h
-  have h2 := Tr.forget (e := e) (s := s') (sp := sp.deliver ino) ino 1
+theorem Tr.lookup_undo {e : Env} {nf : Bool} {s s' : St} {sp : Spec} {ino : Ino} {a : HAns}
+    (h : LkEff e s s' (.ok ino)) (hu : LkU e s s' a (.ok ino)) (hf : nf = true → a.NoFh) :
+    Tr e nf false s sp (forgetOne e s' ino 1) sp := by
+  have h1 : Tr e nf false s sp s' (sp.deliver ino) := Tr.lookup h hu hf
+  have h2 := Tr.forget (e := e) (nf := nf) (s := s') (sp := sp.deliver ino) ino 1
   rw [deliver_forget_cancel] at h2
   exact h1.trans' h2
 
